@@ -1,6 +1,7 @@
 package libsim
 
 import (
+	"strings"
 	"encoding/json"
 	"fmt"
 	"hash/fnv"
@@ -136,6 +137,7 @@ func Plan(tier string, seed uint64) []Cfg {
 	var out []Cfg
 	for i := 0; i < n; i++ {
 		c := Cfg{Prop: "C18", QSeed: r.Uint64()}
+		light := light // (narrowed below for huge inputs, for this case only)
 		nin := 1 + r.Intn(3)
 		for k := 0; k < nin; k++ {
 			// powers of two and sizes just around them included: table and
@@ -143,6 +145,9 @@ func Plan(tier string, seed uint64) []Cfg {
 			sz := []int{1121, 1200, 1500, 2048, 2500, 3000, 4096, 4097, 5000, 8192}[r.Intn(10)]
 			if r.Intn(150) == 0 {
 				sz = 125000 // a 10^6-bit sample: size-dependent fast paths only show here
+			}
+			if r.Intn(100) == 0 {
+				sz = []int{1 << 20, 1<<20 + 1, 1<<20 + 4096}[r.Intn(3)] // 2^23 bits and more: size thresholds of parallel or chunked paths
 			}
 			c.Inputs = append(c.Inputs, InputSpec{N: sz, Seed: r.Uint64() % 16, Kind: []string{"prf", "prf", "biased", "alt", "zeros"}[r.Intn(5)]})
 		}
@@ -157,10 +162,34 @@ func Plan(tier string, seed uint64) []Cfg {
 		if r.Intn(6) == 0 {
 			focus = heavy[r.Intn(len(heavy))]
 		}
-		big := false
+		big, huge := false, false
 		for _, sp := range c.Inputs {
 			if sp.N > 5000 {
 				big = true
+			}
+			if sp.N > 200000 {
+				huge = true
+			}
+		}
+		if huge {
+			// linear-time entry points only
+			var lin []int
+			for i, cd := range Catalogue {
+				switch {
+				case cd.Heavy, strings.HasPrefix(cd.Name, "registry["), strings.HasPrefix(cd.Name, "Round"), strings.HasPrefix(cd.Name, "DiscreteFourier"), strings.HasPrefix(cd.Name, "LinearComplexity"):
+				default:
+					lin = append(lin, i)
+				}
+			}
+			light = lin
+			focus = lin[r.Intn(len(lin))]
+			if r.Intn(2) == 0 {
+				for i, cd := range Catalogue {
+					if strings.HasPrefix(cd.Name, "FrequencyWithinBlockProto") {
+						focus = i
+						break
+					}
+				}
 			}
 		}
 		for t := 0; t < T; t++ {
@@ -192,6 +221,16 @@ func Plan(tier string, seed uint64) []Cfg {
 		c.Policy = genPolicy(r, 2000)
 		c.Windowed = r.Intn(2) == 0
 		c.NumCPU = []int{1, 2, 3, 4, 5, 6, 7, 8, 12, 16, 24}[r.Intn(11)]
+		if huge {
+			c.Quantum = 70000
+			if len(c.Tasks) > 3 {
+				c.Tasks = c.Tasks[:3]
+			}
+		} else if i%13 == 5 && !big {
+			// first concurrent users of a fresh process, preempted early and often
+			c.Fresh = true
+			c.Quantum = []int64{17, 17, 130}[r.Intn(3)]
+		}
 		out = append(out, c)
 	}
 	return out
@@ -217,6 +256,17 @@ func TestRefChild(t *testing.T) {
 	}
 }
 
+// TestFreshChild runs one configuration in a process that has done nothing else.
+func TestFreshChild(t *testing.T) {
+	req := os.Getenv("VERIF_FRESH_REQ")
+	if req == "" {
+		t.Skip("not a fresh child")
+	}
+	if err := FreshChildMain(t, req); err != nil {
+		t.Fatal(err)
+	}
+}
+
 func TestBatch(t *testing.T) {
 	jp := os.Getenv("VERIF_JOB")
 	if jp == "" {
@@ -235,7 +285,13 @@ func TestBatch(t *testing.T) {
 	keys := map[uint64]bool{}
 	start := time.Now()
 	eval := func(c *Cfg) *Outcome {
-		o := Execute(t, c, sim)
+		var o *Outcome
+		if c.Fresh && sim {
+			o = ExecuteFresh(t, c)
+			res.Probes["case-run-in-a-fresh-process"]++
+		} else {
+			o = Execute(t, c, sim)
+		}
 		res.Executions++
 		res.Steps += int64(o.Sim.Steps)
 		res.Choices += int64(o.Sim.Choices)
@@ -372,6 +428,12 @@ func TestBatch(t *testing.T) {
 			res.Probes[fmt.Sprintf("quantum-%d", c.Quantum)]++
 			res.Probes["policy-"+c.Policy.Kind]++
 			res.Probes[fmt.Sprintf("numcpu-%d", c.NumCPU)]++
+			for _, sp := range c.Inputs {
+				if sp.N > 200000 {
+					res.Probes["input-of-2^23-bits-or-more"]++
+					break
+				}
+			}
 			if c.Windowed {
 				res.Probes["inputs-are-windows-of-one-buffer"]++
 			}
